@@ -24,6 +24,8 @@ def tok_str(tokens):
     for t in tokens:
         if t[0] == "R":
             out.append("R %d %d" % (t[1], t[2] if len(t) > 2 and t[2] is not None else -1))
+        elif t[0] == "J":
+            out.append("J %d" % t[1])
         else:
             out.append(t[0])
     return "%d %s" % (len(tokens), " ".join(out))
@@ -144,16 +146,25 @@ def walk(tokens, obs):
     C is skipped (K) iff the writer is already dead, S iff it is not dead, N iff the segment has
     never been published to (generation 0), W iff the writer is dead, R iff reader j does not exist."""
     i = 0
-    dead, gen, nreaders = False, 0, 0
+    dead, gen, nreaders, busy = False, 0, 0, False
     for t in tokens:
         items = []
         if t[0] == "W":
             if dead:
                 items.append(obs[i]); i += 1
             elif i < len(obs) and obs[i]["t"] == "A":
+                busy = True
                 if obs[i]["kind"] == "S" and obs[i]["loc"] == "g":
                     gen = obs[i]["val"]
+                    if gen % 2 == 0:
+                        busy = False
                 items.append(obs[i]); i += 1
+        elif t[0] == "J":
+            if busy and not dead:
+                items.append(obs[i]); i += 1
+            else:
+                gen = t[1]
+                items.append({"t": "J", "val": t[1]})
         elif t[0] == "R":
             if t[1] >= nreaders:
                 items.append(obs[i]); i += 1
@@ -169,6 +180,8 @@ def walk(tokens, obs):
         elif t[0] == "S":
             if not dead:
                 items.append(obs[i]); i += 1
+            else:
+                busy = False
             dead = False
         elif t[0] == "N":
             if gen == 0:
@@ -189,6 +202,8 @@ def judge(tokens, out, want):
     calls = {}             # reader j -> state of the call in progress
     last_ret = {}          # reader j -> last returned publication index
     writer_steps_total = 0
+    cached_gen = {}        # reader j -> generation stored with its cached record
+    gstores = 0
     for t, items in walk(tokens, obs):
         if t[0] == "W":
             for it in items:
@@ -197,12 +212,17 @@ def judge(tokens, out, want):
                 writer_steps_total += 1
                 if it["kind"] == "W" and it["loc"] != "c6":
                     started = it["val"] // 1000          # publication number carried by the cells being stored
+                if it["kind"] == "L":
+                    gstores = 0                          # a write() call begins with its generation load
                 if it["kind"] == "S" and it["loc"] == "g":
-                    if it["val"] % 2 == 1:
-                        in_flight = True
+                    gstores += 1
+                    if gstores == 1:
+                        in_flight = True                 # first generation store of the call
                     else:
-                        in_flight = False
+                        in_flight = False                # second one: the call is complete
                         completed = started
+                        if want in ("C03", "C04", "C02") and it["val"] % 2 == 1:
+                            bad.append("a completed update left the generation odd (%d): clients keep serving their previous record" % it["val"])
                     if want == "C04" and it["val"] == 0:
                         bad.append("writer stored generation 0")
                 for cj in calls.values():
@@ -218,6 +238,8 @@ def judge(tokens, out, want):
                     cj["n"] += 1
                     if cj["n"] == 2 and it["kind"] == "L" and it["loc"] == "g":
                         cj["g1"] = it["val"]
+                    if it["kind"] == "L" and it["loc"] == "g":
+                        cj["lastg"] = it["val"]
                 elif it["t"] == "T":
                     cj = calls.pop(j, {"n": 0, "writer_moved": False, "in_flight_at_entry": in_flight, "completed_at_entry": completed})
                     if want == "C18":
@@ -238,8 +260,12 @@ def judge(tokens, out, want):
                     if want in ("C03", "C04"):
                         if j in last_ret and k < last_ret[j]:
                             bad.append("reader %d went back from publication %d to %d" % (j, last_ret[j], k))
+                    if it["ret"] == "F":
+                        cached_gen[j] = cj.get("lastg")
+                    aba = it["ret"] == "C" and cj.get("g1") is not None and cj.get("g1") == cached_gen.get(j)
                     if want == "C03":
-                        if not cj["writer_moved"] and not cj["in_flight_at_entry"] and not in_flight and k != completed:
+                        # documented exception: the live generation coincides with the cached one
+                        if not aba and not cj["writer_moved"] and not cj["in_flight_at_entry"] and not in_flight and k != completed:
                             bad.append("reader %d returned publication %d although %d was complete and the writer idle during the call" % (j, k, completed))
                     last_ret[j] = k
     return bad
@@ -273,6 +299,29 @@ def gen_schedule(rng, kind):
     # let every call in progress finish with the writer idle
     for j in range(nread):
         toks += [("R", j, None)] * 14
+    return toks
+
+
+def gen_wrap(rng):
+    """Deep states reached with the J (jump) token: the 16-bit wrap, readers that skip many
+    publications, a crash in the update that passes through 65535."""
+    R13 = [("R", 0, None)] * 13
+    W11 = [("W",)] * 11
+    kind = rng.randrange(4)
+    if kind == 0:      # follow the counter through the wrap
+        toks = W11 + [("J", rng.choice([65526, 65528, 65530, 65532]))] + [("N",)] + R13
+        for _ in range(rng.randrange(3, 9)):
+            toks += [("W",)] * rng.choice([11, 11, 5, 6]) + [("R", 0, None)] * rng.choice([13, 13, 2, 7])
+        toks += W11 + R13 + R13
+    elif kind == 1:    # a reader that slept through many publications (not a multiple of 32767)
+        toks = W11 + [("N",)] + R13 + [("J", 2 + 2 * rng.choice([1, 5, 16383, 16384, 16385, 20000, 30000, 32766]))] + W11 + R13 + R13
+    elif kind == 2:    # daemon dies in the update that passes through 65535, restart, publish
+        toks = W11 + [("N",)] + R13 + [("J", rng.choice([65534, 65532]))]
+        toks += [("W",)] * rng.choice([2, 3, 5, 10, 13]) + [("C",)] + [("R", 0, None)] * rng.choice([0, 2, 13]) + [("S",)]
+        toks += [("W",)] * rng.choice([11, 22, 4]) + R13 + [("N",)] + [("R", 1, None)] * 13 + W11 + R13
+    else:              # crash with an odd generation anywhere, restart, readers old and new
+        toks = W11 + [("N",)] + R13 + [("J", 2 * rng.randrange(2, 32767))] + [("W",)] * rng.randrange(2, 11) + [("C",), ("S",)]
+        toks += [("R", 0, None)] * rng.choice([2, 13]) + [("N",)] + [("R", 1, None)] * 13 + W11 + R13 + [("R", 1, None)] * 13
     return toks
 
 
@@ -311,6 +360,8 @@ def run_property(pid, res, proofs_ok, proofs_why, extra_part=None):
     for i in range(n):
         kind = "crash" if (pid == "C04" or i % 4 == 0) else "plain"
         scheds.append(gen_schedule(rng, kind)); tags.append(kind)
+    for i in range(n // 5):
+        scheds.append(gen_wrap(rng)); tags.append("wrap/skip/crash-at-wrap")
     lines = [line_of(cfg, s) for s in scheds]
     impl = c.run_lines(binary, lines, timeout=1800)
     model = c.run_model(lines, timeout=1800)
@@ -318,7 +369,7 @@ def run_property(pid, res, proofs_ok, proofs_why, extra_part=None):
     diffs, bad = [], []
     for s, tg, ln, i, m in zip(scheds, tags, lines, impl, model):
         res.count("gen:" + tg)
-        ntoks = {"W": 0, "R": 0, "C": 0, "S": 0, "N": 0}
+        ntoks = {"W": 0, "R": 0, "C": 0, "S": 0, "N": 0, "J": 0}
         for t in s:
             ntoks[t[0]] += 1
         if ntoks["W"] and ntoks["R"]:
@@ -359,6 +410,8 @@ def parse_tok_str(s):
         if t[i] == "R":
             k = int(t[i + 2])
             toks.append(("R", int(t[i + 1]), None if k < 0 else k)); i += 3
+        elif t[i] == "J":
+            toks.append(("J", int(t[i + 1]))); i += 2
         else:
             toks.append((t[i],)); i += 1
     return toks
